@@ -18,6 +18,15 @@ DOCS = [
     "**Bold heading**\n===\n\n```py\ncode   here\n```\n\n{% tag %}\n- in tag\n{% /tag %}\n",
     "A long paragraph of text that needs wrapping at a narrow width to exercise the wrappers. Another sentence. And a third one that is longer still.\n",
     "> [!NOTE]\n> alert body\n\n* * *\n\n<div>html</div>\n",
+    # definitions that must stay in their own call: a later document uses the same labels in another spelling without defining them
+    "Text[^caveat] and more[^second caveat].\n\n[^caveat]: One.\n\n[^second caveat]: Two.\n\n[Big Ref]: /u \"T\"\n\nUse [big ref].\n",
+    "See the fine print[^Caveat] and also[^Second   Caveat] before you sign the [BIG   REF] here.\n",
+    # code fences of different styles (what a parser keeps between recognising the fence and reading the block)
+    "```python\nx = 1\n```\n\ntext\n\n```python title\ny = 2\n```\n\n```\nz\n```\n",
+    "> ~~~~ js title\n> code one\n> ~~~~\n\n> ~~~~ js other\n> code two\n> ~~~~\n\n- ~~~\n  in item\n  ~~~\n",
+    # a document that ends in a heading, and one that starts with a definition and an empty line
+    "Intro text.\n\n## Final heading\n",
+    "[r]: /u \"T\"\n\nParagraph with [r] in it.\n",
 ]
 OPTS = [
     dict(width=88, semantic=True, cleanups=True, smartquotes=False, ellipses=False),
@@ -169,6 +178,19 @@ def run(chk: Check) -> None:
                 nb += 1
                 chk.fail("property", {"history": [{"doc": pd, "opts": po}], "doc": d, "opts": o, "got": out, "alone": alone[key]},
                          "result depends on the document formatted before", classify)
+    # every ordered pair of documents under one option set (state that only one particular predecessor leaves behind)
+    for o in OPTS[:2]:
+        for pd in DOCS:
+            for d in DOCS:
+                key = (d, json.dumps(o, sort_keys=True))
+                reformat_text(pd, **o)
+                out = reformat_text(d, **o)
+                npre += 1
+                chk.count()
+                if out != alone[key]:
+                    nb += 1
+                    chk.fail("property", {"history": [{"doc": pd, "opts": o}], "doc": d, "opts": o, "got": out, "alone": alone[key]},
+                             "result depends on the document formatted before", classify)
     chk.port_stat("histories (prefix call then call) vs stand-alone", npre, nb)
     # ---- schedules ----
     nsched = 25 if tier == "quick" else 400
